@@ -154,6 +154,35 @@ def run(eng, R):
     bad = [1 for a in fits for b in cfgcalls if g.find_path(a.id, lambda m, b=b: m.id == b.id, exceptional=False)]
     R.ob("S-order", "_fit_wrapper_generic:fit last", not bad and len(cfgcalls) >= 4, (fw.file, fw.lineno), "a configuration call can follow do_fit: the returned results belong to a different configuration")
 
+    # ---- every constraint given to a wrapper reaches the fit: the loop runs over the sequence of specifications itself, not over a mapping keyed by parameter name
+    def iter_source(loop):
+        """'sequence' if the loop runs over the wrapper argument (possibly wrapped into a tuple), 'mapping' if it runs over the items of a mapping, else None"""
+        it = loop.iter
+        if isinstance(it, ast.Call) and isinstance(it.func, ast.Attribute) and it.func.attr in ("items", "keys", "values"):
+            return "mapping"
+        if isinstance(it, ast.Name) and it.id in ("constraints", "limits", "fixed"):
+            return "sequence"
+        if isinstance(it, ast.Call) and isinstance(it.func, ast.Name) and it.func.id in wm.functions:
+            h = wm.functions[it.func.id]
+            rets = [r.value for r in ast.walk(h.node) if isinstance(r, ast.Return) and r.value is not None]
+            if any(isinstance(r, (ast.Dict, ast.DictComp)) or (isinstance(r, ast.Call) and isinstance(r.func, ast.Name) and r.func.id in ("dict", "OrderedDict")) for r in rets):
+                return "mapping"
+            if rets and all(isinstance(r, (ast.Tuple, ast.List, ast.Name, ast.ListComp)) for r in rets):
+                return "sequence"
+        return None
+
+    for callee, arg in (("add_parameter_constraint", "constraints"),):
+        loops = [l for l in ast.walk(fw.node) if isinstance(l, ast.For) and any(
+            isinstance(c, ast.Call) and isinstance(c.func, ast.Attribute) and c.func.attr == callee for st in l.body for c in ast.walk(st))]
+        if len(loops) != 1:
+            raise AnalysisError("_fit_wrapper_generic: loop forwarding %s not found" % arg)
+        src_kind = iter_source(loops[0])
+        if src_kind is None:
+            raise AnalysisError("_fit_wrapper_generic: what the %s loop iterates over is not understood (%s)" % (arg, ast.unparse(loops[0].iter)))
+        R.ob("S-order", "_fit_wrapper_generic:every constraint forwarded", src_kind == "sequence", (fw.file, loops[0].lineno),
+             "the wrapper runs over a mapping keyed by parameter name: of several constraints on the same parameter only the last reaches the fit, while explicit calls of "
+             "add_parameter_constraint stack them (cost, ndf and results differ)")
+
     # ---- percent shorthand
     pe = p.resolve_name(p.module("kafe2.fit.representation.error.common_error_tools"), "process_error_sources")
     src = common.src_of(pe.node)
